@@ -138,6 +138,13 @@ def probes():
     P['check_template plugin'] = (ctp, {'sigfield1': b'f1-long'}, push(b'f1') + op('CHECK_TEMPLATE') + b'\x01' + wr(b'Z'), [b'Z'])
     def ctr(cfg): cfg.contracts = ((b'C', 'c'),)
     P['contract'] = (ctr, {}, push(b'a') + push(b'b') + push(b'\x02') + push(b'C') + op('INVOKE') + wr(b'Z'), [b'Z'])
+    # "only the documented flag instructions change a flag, and exactly the integer flag they name": the embedder's named settings
+    # are not integer flags - a script that spells one of them as the operand of UNSET_FLAG changes nothing
+    def unset(key): return op('UNSET_FLAG') + u1(len(key)) + key
+    for base, key in (('disallow_OP_EVAL', b'disallow_OP_EVAL'), ('eval_return=on', b'eval_return'), ('ts_threshold=2000', b'ts_threshold'),
+                      ('ts_threshold=0', b'ts_threshold'), ('epoch_threshold=5000', b'epoch_threshold')):
+        mod_, cache_, pb_, keys_ = P[base]
+        P['unset:' + base] = (mod_, cache_, unset(key) + pb_, keys_)
     def lim(cfg): cfg.max_item_size = 40
     big = op('TRY_EXCEPT') + u2(len(push(bytes(41)))) + push(bytes(41)) + u2(len(op('FALSE') + wr(b'Z'))) + op('FALSE') + wr(b'Z')
     P['max_item_size=40'] = (lim, {}, big, [b'Z'])
@@ -146,6 +153,7 @@ def probes():
 
 def want_top(pname):
     if pname.startswith('twice:'): pname = pname[6:]
+    if pname.startswith('unset:'): pname = pname[6:]
     if pname.startswith('disallow_OP_EVAL/'): pname = 'disallow_OP_EVAL'
     if pname.startswith('flag') and pname != 'flag10=on' and pname != 'flag10=off':
         return (lambda ob: ob[1][0][1] is None) if pname.endswith('=off') else (lambda ob: ob[1][0][1] is not None)
@@ -188,7 +196,7 @@ def run(ctx: Ctx) -> Result:
             for cname in reversed(nest):
                 b = CONTEXTS[cname](b)
             if len(b) > 60000: continue
-            if (pname in ('disallow_OP_EVAL', 'max_item_size=40') or pname.startswith('disallow_OP_EVAL/')) and any(c in ('EVAL', 'MERKLEVAL', 'TAPROOT') for c in nest):
+            if (pname in ('disallow_OP_EVAL', 'unset:disallow_OP_EVAL', 'max_item_size=40') or pname.startswith('disallow_OP_EVAL/')) and any(c in ('EVAL', 'MERKLEVAL', 'TAPROOT') for c in nest):
                 continue        # the context itself needs the disallowed instruction / pushes its body as an item
             cases.append((pname, cfg, cache, nest, b, keys))
     outs = []
